@@ -20,7 +20,8 @@ LOG10 = math.log(10.0)
 KINDS = ["speciation", "batch", "exchange", "surface", "gas", "kinetics", "mix"]
 FAMILIES = ["units", "water", "perm_lines", "perm_blocks", "renumber", "dupline", "dupblock", "spread", "mix_swap",
             "mix_selfline", "mix_selfcopy", "mix_fscale", "mix_self_amount", "mix_self_split", "mix_nested", "mix_nested2",
-            "mix_nested_water"]
+            "mix_nested_water", "hist_renumber", "hist_renumber_any", "hist_blocks", "hist_water", "hist_all"]
+HKINDS = ["h_exchange", "h_surface", "h_gas", "h_kinetics", "h_batch"]
 
 
 def hx(s):
@@ -475,7 +476,7 @@ def cellval(c):
     return None
 
 
-def compare_tables(obs, ra, rb, k, last_only=False, stats=None, last_k=None):
+def compare_tables(obs, ra, rb, k, last_only=False, stats=None, last_k=None, skip=0):
     """ra: base rows (first row = headings), rb: transformed; extensive columns scale by k. last_only: only the final
     rows are compared (row counts may differ: nested mixes, re-ordered initial solutions); last_k: factor of the final row
     when only that row is scaled (MIX fractions). → None or text"""
@@ -486,7 +487,7 @@ def compare_tables(obs, ra, rb, k, last_only=False, stats=None, last_k=None):
     if ra[0] != rb[0]:
         return "headings differ"
     heads = [unhex(c[1:]) if c[0] == "S" else "?" for c in ra[0]]
-    rows = [(r, r) for r in range(1, len(ra))]
+    rows = [(r, r) for r in range(1 + skip, len(ra))]      # skip: leading initial-solution rows that come in another order
     if last_only:
         rows = [(len(ra) - 1, len(rb) - 1)]
     kk = k
@@ -569,9 +570,38 @@ def floor_for(name, mu, ext, extensive, row=None):
     return 0.0
 
 
+def make_hist_pair(rng, db, kind, fam):
+    """multi-simulation histories (SAVE / USE chains over four simulations) under renumbering, block order and a water factor"""
+    h = G.History(rng, db, kind[2:], fam)
+    keys = ["s1", "s2", "s3", "s4", "s5", "r1", "r2", "q1", "q2", "m"]
+    k, N, shuffle, skip = 1.0, None, None, 0
+    if fam in ("hist_renumber", "hist_all"):
+        base = sorted(rng.sample(range(1, 400), 5))
+        N = dict(zip(keys[:5], base))
+        N.update(r1=rng.randrange(1, 50), q1=rng.randrange(1, 50), m=rng.randrange(1, 50))
+        N["r2"] = N["r1"] + rng.randrange(1, 9)
+        N["q2"] = N["q1"] + rng.randrange(1, 9)
+    if fam == "hist_renumber_any":       # any injective choice: the initial solutions are then calculated in another order
+        nums = rng.sample(range(0, 1000), 5)
+        N = dict(zip(keys[:5], nums))
+        N.update(r1=rng.randrange(0, 90), q1=rng.randrange(0, 90), m=rng.randrange(0, 90))
+        N["r2"] = rng.choice([x for x in range(0, 99) if x != N["r1"]])
+        N["q2"] = N["q1"] + 1
+        skip = 2
+    if fam in ("hist_blocks", "hist_all"):
+        shuffle = rng.randrange(1 << 30)
+    if fam in ("hist_water", "hist_all"):
+        k = rng.choice([1e-2, 0.1, 0.5, 2.0, 10.0, 100.0])
+    ta, obs = h.render()
+    tb, _ = h.render(N, k, shuffle)
+    return dict(kind=kind, fam=fam, k=k, a=ta, b=tb, last_only=False, last_k=None, skip=skip, obs=[(t, hh) for t, hh, _ in obs])
+
+
 def make_pair(rng, db, kind=None, fam=None, emph=None):
     kind = kind or rng.choice(KINDS)
-    fams = [f for f in FAMILIES if (f.startswith("mix_")) == (kind == "mix") or f in ("units", "water", "perm_lines", "renumber", "perm_blocks")]
+    if kind.startswith("h_"):
+        return make_hist_pair(rng, db, kind, fam)
+    fams = [f for f in FAMILIES if not f.startswith("hist_") and (f.startswith("mix_")) == (kind == "mix") or f in ("units", "water", "perm_lines", "renumber", "perm_blocks")]
     if kind != "mix":
         fams = [f for f in fams if not f.startswith("mix_")]
     fam = fam or rng.choice(fams)
@@ -643,7 +673,7 @@ def judge_pair(pair, ba, bb, stats=None):
         return "skip", "both descriptions end with an error: " + ea[-100:]
     if (rca != 0) != (rcb != 0):
         return "asym", f"one description fails: base rc={rca} {ea[-150:]} | transformed rc={rcb} {eb[-150:]}"
-    d = compare_tables(pair["obs"], ra, rb, pair["k"], pair["last_only"], stats, pair.get("last_k"))
+    d = compare_tables(pair["obs"], ra, rb, pair["k"], pair["last_only"], stats, pair.get("last_k"), pair.get("skip", 0))
     if d:
         return "bad", d
     return "ok", len(ra) - 1
@@ -789,6 +819,7 @@ def run(ctx):
               if (f.startswith("mix_") and k == "mix") or (not f.startswith("mix_") and not (k == "mix" and f in ("dupblock",)))
               and not (f == "spread" and k == "mix")]
     pairs += targeted
+    combos = [c for c in combos if not c[1].startswith("hist_")] + [(hk, f) for hk in HKINDS for f in FAMILIES if f.startswith("hist_")]
     for i in range(n3):
         k, f = combos[i % len(combos)] if i < 2 * len(combos) else rng.choice(combos)
         pairs.append(make_pair(rng, db, k, f))
@@ -810,7 +841,7 @@ def run(ctx):
             what = ("the two descriptions give different results" if st == "bad"
                     else "one description runs, the equivalent one ends with an error")
             ctx.violation(f"C15 {key} (k={p['k']}): {what}: {det}",
-                          {"kind": "pair", "pair": {x: p[x] for x in ("kind", "fam", "k", "a", "b", "last_only", "last_k", "obs")}, "detail": det})
+                          {"kind": "pair", "pair": {x: p[x] for x in ("kind", "fam", "k", "a", "b", "last_only", "last_k", "obs")} | {"skip": p.get("skip", 0)}, "detail": det})
             break
     # (ii-b) unit changes inside every family, all spellings: each convert_units case against its restatement in the base unit
     if not ctx.violations:
